@@ -285,7 +285,9 @@ def x_startup_constants():
     for const, lean in [("DEFAULT_CQL_PROTOCOL_VERSION", "startup_CQL_VERSION_value"),
                         ("DEFAULT_DRIVER_NAME", "startup_DRIVER_NAME_value"),
                         ("CQL_VERSION", "startup_key_CQL_VERSION"), ("DRIVER_NAME", "startup_key_DRIVER_NAME"),
-                        ("DRIVER_VERSION", "startup_key_DRIVER_VERSION"), ("COMPRESSION", "startup_key_COMPRESSION")]:
+                        ("DRIVER_VERSION", "startup_key_DRIVER_VERSION"), ("COMPRESSION", "startup_key_COMPRESSION"),
+                        ("APPLICATION_NAME", "startup_key_APPLICATION_NAME"),
+                        ("APPLICATION_VERSION", "startup_key_APPLICATION_VERSION"), ("CLIENT_ID", "startup_key_CLIENT_ID")]:
         v = one(rel, r"pub\s+const\s+%s\s*:\s*&str\s*=\s*\"([ -~]*?)\"\s*;" % const, "const %s" % const, src)
         res.append(bytes_def(lean, v))
     one(rel, r"pub\s+const\s+DEFAULT_DRIVER_VERSION\s*:\s*&str\s*=\s*env!\(\"CARGO_PKG_VERSION\"\)\s*;",
@@ -311,6 +313,39 @@ def x_startup_constants():
     return ("STARTUP: advertised values and option keys", [rel, cargo, rel2], res)
 
 
+def x_connection_limits():
+    """C02/C10: the bounded resources of one connection - capacity of the submit channel (production `Connection::new`
+    AND the verification hook `RawConnection::spawn_inner`, which builds its own channel), the orphan thresholds, the
+    capacity of the control connection's event channel."""
+    rel = "scylla/src/network/connection.rs"
+    src = strip_comments(read(rel))
+    count = parse_int(one(rel, r"const\s+OLD_ORPHAN_COUNT_THRESHOLD\s*:\s*usize\s*=\s*([0-9_A-Za-z]+)\s*;", "OLD_ORPHAN_COUNT_THRESHOLD", src), rel)
+    secs = parse_int(one(rel, r"const\s+OLD_AGE_ORPHAN_THRESHOLD\s*:\s*std::time::Duration\s*=\s*std::time::Duration::from_secs\(([0-9_]+)\)\s*;", "OLD_AGE_ORPHAN_THRESHOLD", src), rel)
+
+    def submit_cap(r):
+        s = strip_comments(read(r))
+        m = re.findall(r"const\s+SUBMIT_CHANNEL_CAPACITY\s*:\s*usize\s*=\s*([0-9_A-Za-z]+)\s*;", s)
+        if len(m) == 1:
+            return parse_int(m[0], r)
+        lit = one(r, r"let\s*\(\s*sender\s*,\s*receiver\s*\)\s*=\s*mpsc::channel\(([0-9_A-Za-z:]+)\)\s*;", "capacity of the submit channel", s)
+        if "SUBMIT_CHANNEL_CAPACITY" in lit:
+            return None  # uses the shared constant
+        return parse_int(lit, r)
+    prod = submit_cap(rel)
+    rel_hook = "scylla/src/network/connection_verif.rs"
+    hook = submit_cap(rel_hook)
+    if prod is None:
+        raise ExtractError("%s: the production submit channel refers to a constant that is not defined there" % rel)
+    if hook is None:
+        hook = prod
+    rel_cc = "scylla/src/cluster/control_connection.rs"
+    ev = parse_int(one(rel_cc, r"mpsc::channel\(([0-9_]+)\)", "capacity of the event channel"), rel_cc)
+    return ("bounded resources of a connection", [rel, rel_hook, rel_cc],
+            [("submitChannelCapacity", "Nat", str(prod)), ("hookSubmitChannelCapacity", "Nat", str(hook)),
+             ("oldOrphanCountThreshold", "Nat", str(count)), ("oldAgeOrphanThresholdMs", "Nat", str(secs * 1000)),
+             ("controlEventChannelCapacity", "Nat", str(ev))])
+
+
 EXTRACTORS = [
     x_request_opcodes,
     x_response_opcodes,
@@ -323,6 +358,7 @@ EXTRACTORS = [
     x_event_types,
     x_decompress_guards,
     x_startup_constants,
+    x_connection_limits,
 ]
 
 
